@@ -143,8 +143,8 @@ Proof.
   destruct (_ =? IndentedCodeBlockKind).
   { unfold matchIndented. cbv zeta. destruct (_ <? _); [destruct (negb _)|]; cbn [snd]; try apply A_consumeIndent; exact H. }
   destruct (_ =? HTMLBlockKind).
-  { unfold matchHTML. destruct (htmlEnd _ _); [|exact H]. cbn [snd]. apply A_consumeLine.
-    destruct (negb _); [apply A_collectInline; assumption|exact H]. }
+  { unfold matchHTML. destruct (htmlEnd _ _); [|exact H]. destruct (isRestBlank _); [exact H|]. cbn [snd]. apply A_consumeLine.
+    apply A_collectInline; assumption. }
   exact H.
 Qed.
 Lemma A_descend_loop : forall fuel p d, A p -> A (snd (descend_loop fuel p d)).
